@@ -84,7 +84,7 @@ def pool_map(fn, tasks, logdir, nproc=12, task_timeout=150):
 class Srv:
     """A real server process owned by one scenario."""
 
-    def __init__(self, logdir=None, name='srv'):
+    def __init__(self, logdir=None, name='srv', close_on_none=False):
         import uuid
         from pyworkers.remote_server import spawn_server
         # everything that descends from this server inherits VF_SCN=<tag> (spawn = exec): it can be found and
@@ -99,7 +99,7 @@ class Srv:
             f.close()
         os.environ['VF_SCN'] = self.tag
         try:
-            res = L.bounded(lambda: spawn_server(('127.0.0.1', 0)), 20)
+            res = L.bounded(lambda: spawn_server(('127.0.0.1', 0), close_on_none=close_on_none), 20)
         finally:
             os.environ.pop('VF_SCN', None)
             if logdir:
@@ -214,7 +214,7 @@ def scenario_c11(scn):
     from pyworkers.persistent_remote import PersistentRemoteWorker
     from pyworkers.remote_context import RemoteContext
     L.setup_env()
-    srv = Srv(scn.get('logdir'))
+    srv = Srv(scn.get('logdir'), close_on_none=bool(scn.get('con')))
     obs = {'srv_alive': 'F', 'fresh': [], 'others': []}
     notes = {'client_logs': [], 'server_error': '', 'failed_at': 0}
     release = os.path.join(scn['logdir'], 'release-%d-%d' % (os.getpid(), time.time_ns()))
@@ -315,7 +315,7 @@ def scenario_c11(scn):
         notes['unkillable'] = left
     return {'id': scn['id'], 'prop': 'C11',
             'scn': {'faults': [{'req': f['req'], 'step': f['step'], 'mode': f['mode']} for f in done]},
-            'obs': obs, 'notes': notes, 'faults_full': done}
+            'obs': obs, 'notes': notes, 'faults_full': done, 'con': bool(scn.get('con'))}
 
 
 # ----------------------------------------------------------------------------- C18
@@ -383,7 +383,7 @@ def scenario_c18(scn):
             # which workers are still alive shortly after the reply (API and OS), without touching them
             t0 = time.time()
             pend = dict(workers)
-            while pend and time.time() - t0 < 3.0:
+            while pend and time.time() - t0 < HANG:
                 for w, wo in list(pend.items()):
                     a = L.bounded(wo.is_alive, HANG)
                     if a == ('ok', False) and not L.pid_alive(wo.pid):
@@ -411,6 +411,28 @@ def scenario_c18(scn):
             except OSError as e:
                 s.close()
                 return 'raised:' + type(e).__name__, []
+        if op == 'rstart':
+            # a worker request whose client is RESET before the server reads it: connection 1 sends nothing and keeps the
+            # accept loop waiting; connection 2 sends the whole request and is reset; then connection 1 is closed
+            cap = _Capture()
+            send_msg(cap, (cid, True))
+            pay = L.retarget([b'', bytes.fromhex(scn['upayload'])], [tuple(p) for p in scn['upos']], srv.addr[1])[1]
+            c1 = socket.socket(socket.AF_INET, socket.SOCK_STREAM)
+            c2 = socket.socket(socket.AF_INET, socket.SOCK_STREAM)
+            try:
+                c1.settimeout(HANG)
+                c2.settimeout(HANG)
+                c1.connect(srv.addr)
+                time.sleep(0.05)
+                c2.connect(srv.addr)
+                c2.sendall(cap.data + pay)
+                L.vanish([c2], 'rst')
+                time.sleep(0.05)
+                c1.close()
+                return 'nostart', []
+            except OSError as e:
+                L.vanish([c1, c2], 'fin')
+                return 'raised:' + type(e).__name__, []
         wo = workers.get(q['w'])
         if wo is None:
             return 'noworker', []                     # the start this request refers to gave no worker
@@ -429,10 +451,13 @@ def scenario_c18(scn):
             except WorkerClosedError:
                 return 'dead', []
             return (r[1] if r[0] == 'ok' else ('dead' if r[0] == 'raised' and isinstance(r[1], WorkerClosedError) else L.tag(r))), []
-        if op == 'call':
+        if op in ('call', 'callk'):
             def call():
                 try:
-                    wo.enqueue(q['x'])
+                    if op == 'callk':
+                        wo.enqueue(q['x'], tok=77)    # a keyword of its own for THIS input (ServerProps.OverrideTok)
+                    else:
+                        wo.enqueue(q['x'])
                     return 'v:%s' % (wo.next_result(timeout=HANG),)
                 except (WorkerClosedError, queue.Empty):
                     return 'dead'
@@ -610,7 +635,8 @@ def scenario_c12(scn):
         rt = None
         if racer and racer != 'none':
             import threading
-            frames = L.retarget([bytes.fromhex(x) for x in scn['streams']['worker']], [tuple(p) for p in scn['pos']['worker']], srv.addr[1])
+            # the racing worker's target keeps running: a backend that slips through the stop is still there afterwards
+            frames = L.retarget([bytes.fromhex(x) for x in scn['streams']['lworker']], [tuple(p) for p in scn['pos']['lworker']], srv.addr[1])
             raw = L.RawClient(srv.addr, frames, timeout=HANG)
             step = 'addr' if racer == 'addr' else 'run'
             rt = threading.Thread(target=lambda: raw.run(step, 0, 'fin', hold=True), daemon=True)
